@@ -24,7 +24,7 @@ props.prop(
                 'tolerance at the boundary)',
     assumptions=['copy.copy copies every instance field'])
 props.also('C08',
-           'that on the general-angle branch the pre-selection half-extent uses both radii; that the polygon helpers are scale-free (shared with C09.g)')
+           'that on the general-angle branch the pre-selection half-extent uses both radii; that the polygon helpers are scale-free (shared with C09.g); that move / rotate never write into a container a shallow copy shares; that the period of every angle shortcut is a symmetry of the shape (quarter-turn tests only behind the half-turn test; polygons: whole turns)')
 
 ROI = 'glue.core.roi.Roi'
 
